@@ -165,10 +165,27 @@ def check_areas(spec: dict) -> dict:
     added_after_area = False
     areas_present = False
     regions_failed = False
+    stripped = False
+    core_now = {gene["name"]: set(gene.get("core_for", [])) for gene in spec["genes"]}
     for op in spec["ops"]:
         kind, _, index = op.partition(":")
         with code_under_test("build_total"):
-            if kind == "cds":
+            if kind == "strip":
+                # everything antiSMASH added goes: areas and gene functions; the genes stay. Areas added afterwards
+                # are new objects, and a gene is a defining gene again only if it is annotated again ("core:<i>")
+                record.strip_antismash_annotations()
+                stripped = True
+                areas_present = False
+                core_now = {name: set() for name in core_now}
+                protos = [make_protocluster(proto["core"], proto["loc"], product=proto["product"])
+                          for proto in spec["protoclusters"]]
+                subs = [make_subregion(sub["loc"], label=f"s{i}") for i, sub in enumerate(spec["subregions"])]
+            elif kind == "core":
+                name = f"g{index}"
+                for product in genes[name].get("core_for", []):
+                    cds_objects[name].gene_functions.add(GeneFunction.CORE, "verif", "desc", product)
+                    core_now[name].add(product)
+            elif kind == "cds":
                 if areas_present:
                     added_after_area = True
                 record.add_cds_feature(cds_objects[f"g{index}"])
@@ -225,7 +242,7 @@ def check_areas(spec: dict) -> dict:
     for proto in record.get_protoclusters():
         core_spec = ring.from_bio(proto.core_location)
         want = {name for name, gene in genes.items()
-                if ring.contains(core_spec, gene["loc"]) and proto.product in gene.get("core_for", [])}
+                if ring.contains(core_spec, gene["loc"]) and proto.product in core_now[name]}
         got = {cds.get_name() for cds in proto.definition_cdses}
         if got != want:
             raise Violation("definition_cdses", {"product": proto.product, "core": core_spec,
@@ -244,6 +261,7 @@ def check_areas(spec: dict) -> dict:
                             [i for i, op in enumerate(spec["ops"]) if op.startswith(("proto", "sub"))] or [-1])
                         else "areas_before_regions",
                         "gene_after_area" if added_after_area else "genes_first",
+                        "stripped_and_rebuilt" if stripped else "built_once",
                         "has_regions" if regions else "no_regions",
                         "span_area" if any(len(a.location.parts) > 1 for _, a in collections) else "plain_areas"]}
 
@@ -328,6 +346,14 @@ def area_specs(draw):
     if draw(st.integers(0, 2)) == 0:
         # any interleaving at all: areas may be added after candidates / regions were created
         ops = list(draw(st.permutations(ops)))
+    if draw(st.integers(0, 3)) == 0:
+        # a second life: strip what antiSMASH added, annotate some genes again, add (some of) the areas again
+        again = [f"core:{i}" for i, gene in enumerate(genes) if gene["core_for"] and draw(st.booleans())]
+        readd = [op for op in area_ops if draw(st.integers(0, 3)) > 0]
+        # genes not yet in the record cannot be annotated again before they are added: add them first
+        missing = [f"cds:{i}" for i in range(len(genes)) if f"cds:{i}" not in ops]
+        second = list(draw(st.permutations(again + readd))) + ["cands", "regions"]
+        ops = ops + missing + ["strip"] + second
     return {"L": length, "circular": circular, "genes": genes, "protoclusters": protos,
             "subregions": subs, "ops": ops}
 
